@@ -205,12 +205,24 @@ def run(index: RepoIndex, rep) -> None:
                 v = vals[0][1]
                 if isinstance(v, ast.Constant) and v.value == 0 and augs:
                     counters[nm] = ('var', augs)
-                elif isinstance(v, ast.Call) and src(v.func) in ('itertools.count', 'count') \
+                elif isinstance(v, ast.Call) and (
+                        src(v.func) in ('itertools.count', 'count') or
+                        (isinstance(v.func, ast.Attribute) and v.func.attr == 'count' and
+                         isinstance(v.func.value, ast.Name) and
+                         any(m_.imports.get(v.func.value.id) == ('module', 'itertools')
+                             for m_ in index.modules.values()))) \
                         and (not v.args or src(v.args[0]) == '0') and len(v.args) <= 1 \
                         and not v.keywords and not augs:
                     counters[nm] = ('iter', [])
         if not counters and enumerate_style(index, rep, c, init, node, w, rel):
             continue
+        if not counters and not any(
+                isinstance(n, ast.Constant) and n.value == 0 and isinstance(pa, ast.Assign)
+                for pa in ast.walk(node) if isinstance(pa, ast.Assign) for n in [pa.value]):
+            # no counter variable / iterator at all (index blocks by np.arange, ...): another
+            # way of numbering, not a verdict
+            raise AnalysisError(f'{c.name}.__init__: the compact indices are not drawn from a '
+                                f'counter (outside the grammar of C16.R6)')
         rep.check(len(counters) == 1, 'C16.R6',
                   rel, f'{c.name}.__init__', init.node.lineno, str(sorted(counters)),
                   'the compact counter does not start at 0 (once, outside the loops)',
